@@ -267,17 +267,17 @@ def batch_probes():
 
 
 def run(ctx):
-    depth = 6 if ctx.tier == "quick" else 8
+    depth = 6 if ctx.tier == "quick" else 7
     res = explore.bfs(SYSTEM, depth, worker_fn=_worker)
     for sig, hist, detail in res.violations:
         ctx.violation("C14/" + sig, {"history": hist}, detail)
     # the same search from a non-initial state: a model with a long past
-    depth_aged = 4 if ctx.tier == "quick" else 6
+    depth_aged = 4 if ctx.tier == "quick" else 5
     res2 = explore.bfs(SYSTEM_AGED, depth_aged, worker_fn=_worker_aged)
     for sig, hist, detail in res2.violations:
         ctx.violation("C14/aged-root/" + sig, {"history": hist, "aged": True}, detail)
     # a model built without a data collector: reset() fails half way there; whatever it leaves must be consistent
-    depth_nc = 4 if ctx.tier == "quick" else 6
+    depth_nc = 4 if ctx.tier == "quick" else 5
     res3 = explore.bfs(SYSTEM_NOCOLL, depth_nc, worker_fn=_worker_nocoll)
     for sig, hist, detail in res3.violations:
         ctx.violation("C14/no-data-collector/" + sig, {"history": hist, "nocoll": True}, detail)
